@@ -14,6 +14,7 @@ RULE = (
     "of log10 x_i on log10(-ln(1-p_i^(1/delta))), p_i=(i-0.5)/n; the driver repeats each fit with rescaled weights, permuted rows and the other "
     "method name. Free delta: local minimality of the harness's own x-space weighted error. Non-trivial = weights not already normalised or data "
     "unsorted or zeros present; distinct = (sample seed, weights, scaling, delta mode, method)."
+    ' Also: the same fits requested through GlobalHierarchicalModel.fit with per-dimension fit descriptions (weights omitted / None / given).'
 )
 ASSUMPTIONS = [
     "'zero observations are ignored' is accepted under both readings: plotting positions from the full sample (zeros keep their ranks) or from the positive part",
